@@ -18,6 +18,7 @@ import (
 	"sort"
 
 	"github.com/formancehq/ledger/internal/verif/gen"
+	"github.com/formancehq/ledger/internal/verif/wlcore"
 )
 
 func main() {
@@ -39,7 +40,9 @@ func main() {
 	n := fs.Int("n", 100, "number of cases")
 	wide := fs.Bool("wide", false, "use the wider (thorough) generators")
 	replay := fs.String("replay", "", "re-run the inputs of this JSONL file instead of generating")
+	prop := fs.String("prop", "", "property id the check is about: only its predicates are evaluated by the driver")
 	_ = fs.Parse(os.Args[2:])
+	wlcore.Prop = *prop
 	w, ok := gen.Workloads[name]
 	if !ok {
 		fmt.Fprintf(os.Stderr, "unknown workload %q\n", name)
